@@ -9,6 +9,7 @@ import (
 
 	"github.com/hashicorp/go-slug/sourceaddrs"
 
+	corpuspkg "verif/harness/corpus"
 	"verif/harness/fw"
 	"verif/harness/gen"
 )
@@ -360,6 +361,14 @@ func init() {
 			return c06Examine(env, rnd, gen.RuleViolations()[idx-len(c06Corpus)].S)
 		},
 	}
+	kept := corpuspkg.Addresses()
+	distilled := &fw.Phase{
+		Name: "fuzz-distilled-inputs", Exhaustive: true,
+		N: func(string) int { return len(kept) },
+		Run: func(env *fw.Env, idx int) fw.Result {
+			return c06Examine(env, env.Rand(idx), kept[idx])
+		},
+	}
 	fw.Register(&fw.Property{
 		ID:    "C06",
 		Level: "exploration",
@@ -367,6 +376,6 @@ func init() {
 			"every accepted value and every value derivable from it through Package/SourceAddr/Versioned/Unversioned/FinalSourceAddr/ResolveRelative*/MakeRemoteSource (depth 2) is printed and re-parsed. " +
 			"non-trivial = accepted by at least one parser; distinct = input string",
 		Assumptions: []string{"== on the public address types is the library's notion of equality", "the parser of a value's kind is ParseSource / ParseFinalSource / ParseRemotePackage / ParseRegistryPackage"},
-		Phases:      []*fw.Phase{grammar, mutated, corpus, nativeFuzzPhase("native-fuzz-round-trip", "FuzzRoundTrip", "", 4000000)},
+		Phases:      []*fw.Phase{grammar, mutated, corpus, distilled, nativeFuzzPhase("native-fuzz-round-trip", "FuzzRoundTrip", "", 4000000)},
 	})
 }
